@@ -480,14 +480,25 @@ var docFaultOps = []docFaultOp{
 		return true
 	}},
 	{"duplicate-variable", "UniqueVariableNames", func(t *rapid.T, td *TypedDoc, s *ref.Schema) bool {
+		var ops []*ref.Operation
 		for _, op := range td.Doc.Ops {
 			if len(op.Vars) > 0 {
-				c := *op.Vars[0]
-				op.Vars = append(op.Vars, &c)
-				return true
+				ops = append(ops, op)
 			}
 		}
-		return false
+		if len(ops) == 0 {
+			return false
+		}
+		// one to three different variables of one operation defined a second time (several errors
+		// of one rule in one operation: their order must not depend on anything but the document)
+		op := ops[pickN(t, "op", len(ops))]
+		n := len(op.Vars)
+		k := rapid.IntRange(1, 3).Draw(t, "ndup")
+		for i := 0; i < k && i < n; i++ {
+			c := *op.Vars[(n-1-i+pickN(t, "from", n))%n]
+			op.Vars = append(op.Vars, &c)
+		}
+		return true
 	}},
 	{"variable-of-output-type", "VariablesAreInputTypes", func(t *rapid.T, td *TypedDoc, s *ref.Schema) bool {
 		for _, op := range td.Doc.Ops {
